@@ -223,6 +223,10 @@ def run(chk):
                     bad_dist.append((sa, sb, (grf, rf), (gn / gd, rn / rd)))
             else:
                 bad_dist.append((sa, sb, (grf, rf), o))
+            # the composite the theorems of Props/C15Sets.lean speak about: trees in, both distances out
+            o2 = drv.ask('treedist|' + ' '.join(tokens(ta)) + '|' + ' '.join(tokens(tb))).split()
+            if o2 != o:
+                bad_dist.append((sa, sb, ('treedist', o2), ('grf on the received elements', o)))
             # 'symmetric' goes through cogent's compareByPartitions: contract only (0 iff same splits)
             try:
                 sd = A.get_distance(B, 'symmetric')
